@@ -14,10 +14,15 @@ for d in sorted(glob.glob(os.path.join(V, "seeded", "*", "meta.json"))):
     m = json.load(open(d))
     for c, r in m.get("checks", {}).items():
         sigs = "; ".join(s.replace("|", "\\|")[:70] for s in r.get("signatures", [])[:2])
-        missed_first = any((h.get("earlier_result") or {}).get("caught") is False for h in m.get("history", []) if h.get("check") == c)
+        # an earlier run that ended with exit 2 (build of the snapshot failed, time limit) decided nothing
+        earlier = [(h.get("earlier_result") or {}) for h in m.get("history", []) if h.get("check") == c]
+        missed_first = any(e.get("caught") is False and e.get("exit") != 2 for e in earlier)
+        void_first = any(e.get("exit") == 2 for e in earlier) and not missed_first
         verdict = '**yes**' if r.get('caught') else 'no'
         if r.get('caught') and missed_first:
             verdict = '**yes** (missed by the check as it stood; strengthened, then caught)'
+        if r.get('caught') and void_first and m['name'] not in NOTES:
+            verdict = '**yes** (an earlier run decided nothing: its snapshot of /verif was taken during an edit and did not build)'
         if m['name'] in NOTES:
             verdict += ' - ' + NOTES[m['name']]
         out.append(f"| `{m['name']}` | {c} | {'yes' if m.get('confirmed') else 'NO (see note)'} | {verdict} | {sigs} | {r.get('wall_s')} |")
